@@ -148,67 +148,69 @@ structure BocCost where
 def BocCost.outer (c : BocCost) : Nat := c.loop1 + c.loop2 + c.loop3
 def BocCost.total (c : BocCost) : Nat := c.hdr + c.crc + c.loop1 + c.refs1 + c.loop2 + c.refs2 + c.loop3
 
+/-- `is_absent` of `deserialize_cell` -/
+def cellAbsent (d1 : Nat) : Bool := d1 % 8 == 7 && d1 / 16 % 2 == 1
+
+/-- bytes `deserialize_cell` requires after the two descriptor bytes: stored hashes/depths + data + reference indices -/
+def cellNeed (sb d1 d2 : Nat) : Nat :=
+  let hc := popcount (d1 / 32) + 1
+  (if d1 / 16 % 2 == 1 then hc * 32 + hc * 2 else 0) + (d2 / 2 + d2 % 2) + sb * (d1 % 8)
+
 /-- the first loop of `deserialize`: `cnt` = cells still to read, `data` = `cells_data[i:]`.
 Returns (iterations started, ref-loop iterations, completed without raising). -/
 def cellLoop (sb : Nat) : Nat → Bytes → Nat × Nat × Bool
   | 0, _ => (0, 0, true)
   | cnt+1, d1 :: d2 :: rest =>
-    let refs := d1 % 8
-    let hasHashes := d1 / 16 % 2 == 1
-    if refs == 7 && hasHashes then (1, 0, false) else      -- absent cell
-    let dataSize := d2 / 2 + d2 % 2
-    let hc := popcount (d1 / 32) + 1
-    let need := (if hasHashes then hc * 32 + hc * 2 else 0) + dataSize + sb * refs
-    if rest.length < need then (1, 0, false) else          -- 'Not enough bytes to encode cell data'
-    let r := cellLoop sb cnt (rest.drop need)
-    (r.1 + 1, r.2.1 + refs, r.2.2)
-  | _+1, _ => (1, 0, false)                                  -- data[0] / data[1] IndexError
+    if cellAbsent d1 then (1, 0, false) else                           -- absent cell
+    if rest.length < cellNeed sb d1 d2 then (1, 0, false) else         -- 'Not enough bytes to encode cell data'
+    let r := cellLoop sb cnt (rest.drop (cellNeed sb d1 d2))
+    (r.1 + 1, r.2.1 + d1 % 8, r.2.2)
+  | _+1, _ => (1, 0, false)                                            -- data[0] / data[1] IndexError
 
 def magicGen : Bytes := [0xb5, 0xee, 0x9c, 0x72]
 def magicIdx : Bytes := [0x68, 0xff, 0x65, 0xf3]
 def magicIdxCrc : Bytes := [0xac, 0xc3, 0xa7, 0x28]
 
+/-- `deserialize_boc_header` after the size fields are read, then the three loops of `deserialize`.
+(`sb` = size_bytes ≥ 1, `ob` = offset_bytes; every `short` test is one of the code's length checks) -/
+def bocBody (bs : Bytes) (isGen hasIdx hasCrc : Bool) (sb ob cellsNum rootsNum tot : Nat) : BocCost :=
+  let n := bs.length
+  let i0 := 6 + 3 * sb + ob
+  let rootBytes := if isGen then rootsNum * sb else 0      -- legacy magics: no root list
+  let rootIters := if isGen then rootsNum else 0
+  let idxBytes := if hasIdx then cellsNum * ob else 0
+  let idxIters := if hasIdx then cellsNum else 0
+  let crcBytes := if hasCrc then 4 else 0
+  let i2 := i0 + rootBytes + idxBytes
+  let i3 := i2 + tot
+  if short n i0 rootBytes then { hdr := 3 } else              -- "Not enough bytes for encoding root cells hashes"
+  if !isGen && rootsNum != 1 then { hdr := 3 } else           -- "expected exactly one root in indexed boc"
+  if short n (i0 + rootBytes) idxBytes then { hdr := 3 + rootIters } else   -- "Not enough bytes for index encoding"
+  if hasIdx && ob == 0 then { hdr := 3 + rootIters } else     -- range(i, end, 0): ValueError
+  if short n i2 tot then { hdr := 3 + rootIters + idxIters } else           -- "Not enough bytes for cells data"
+  if short n i3 crcBytes then { hdr := 3 + rootIters + idxIters } else      -- "Not enough bytes for crc32c hashsum"
+  let crc := if hasCrc then i3 else 0                         -- crc32c(data[:i]) : Python loop over i bytes
+  if n != i3 + crcBytes then { hdr := 3 + rootIters + idxIters, crc := crc } else   -- "Too many bytes in boc"
+  let r := cellLoop sb cellsNum (sl bs i2 i3)
+  if !r.2.2 then { hdr := 3 + rootIters + idxIters, crc := crc, loop1 := r.1, refs1 := r.2.1 } else
+  { hdr := 3 + rootIters + idxIters, crc := crc, loop1 := r.1, refs1 := r.2.1,
+    loop2 := cellsNum, refs2 := r.2.1, loop3 := rootsNum }
+
+/-- header size check, the three size fields, then `bocBody` -/
+def bocGuarded (bs : Bytes) (isGen hasIdx hasCrc : Bool) (sb ob : Nat) : BocCost :=
+  if bs.length - 5 < 1 + 5 * sb then {} else           -- "can't parse boc header"
+  if sb == 0 then {} else                              -- range(6, end, 0): ValueError
+  bocBody bs isGen hasIdx hasCrc sb ob (natOfBE (sl bs 6 (6 + sb))) (natOfBE (sl bs (6 + sb) (6 + 2 * sb)))
+    (natOfBE (sl bs (6 + 3 * sb) (6 + 3 * sb + ob)))
+
 /-- work of `Cell.from_boc(bs)` -/
 def bocCost (bs : Bytes) : BocCost :=
-  let n := bs.length
-  let z : BocCost := {}
   let magic := bs.take 4
   let isGen := magic == magicGen
-  if n < 5 || !(isGen || magic == magicIdx || magic == magicIdxCrc) then z else
+  if bs.length < 5 || !(isGen || magic == magicIdx || magic == magicIdxCrc) then {} else
   let fb := bs.getD 4 0
-  let hasIdx := if isGen then fb / 128 % 2 == 1 else true
-  let hasCrc := if isGen then fb / 64 % 2 == 1 else magic == magicIdxCrc
-  let sb := if isGen then fb % 8 else fb
-  if n - 5 < 1 + 5 * sb then z else                    -- "can't parse boc header"
-  let ob := bs.getD 5 0
-  if sb == 0 then z else                               -- range(6, end, 0): ValueError
-  let cellsNum := natOfBE (sl bs 6 (6 + sb))
-  let rootsNum := natOfBE (sl bs (6 + sb) (6 + 2 * sb))
-  let e0 := 6 + 3 * sb
-  let i0 := e0 + ob
-  let tot := natOfBE (sl bs e0 i0)
-  let z : BocCost := { z with hdr := 3 }
-  -- root list
-  if isGen && short n i0 (rootsNum * sb) then z else
-  if !isGen && rootsNum != 1 then z else
-  let z : BocCost := if isGen then { z with hdr := z.hdr + rootsNum } else z
-  let i1 := if isGen then i0 + rootsNum * sb else i0
-  -- index
-  if hasIdx && short n i1 (ob * cellsNum) then z else
-  if hasIdx && ob == 0 then z else                     -- range(i, end, 0): ValueError
-  let z : BocCost := if hasIdx then { z with hdr := z.hdr + cellsNum } else z
-  let i2 := if hasIdx then i1 + cellsNum * ob else i1
-  if short n i2 tot then z else                        -- 'Not enough bytes for cells data'
-  let cellsData := sl bs i2 (i2 + tot)
-  let i3 := i2 + tot
-  if hasCrc && short n i3 4 then z else
-  let z : BocCost := if hasCrc then { z with crc := i3 } else z
-  let i4 := if hasCrc then i3 + 4 else i3
-  if n != i4 then z else                               -- 'Too many bytes in boc'
-  let r := cellLoop sb cellsNum cellsData
-  let z : BocCost := { z with loop1 := r.1, refs1 := r.2.1 }
-  if !r.2.2 then z else
-  { z with loop2 := cellsNum, refs2 := r.2.1, loop3 := rootsNum }
+  bocGuarded bs isGen (if isGen then fb / 128 % 2 == 1 else true) (if isGen then fb / 64 % 2 == 1 else magic == magicIdxCrc)
+    (if isGen then fb % 8 else fb) (bs.getD 5 0)
 
 def bocParseSteps (bs : Bytes) : Nat := (bocCost bs).total
 
@@ -255,7 +257,7 @@ inductive DRes where
   | done (steps : Nat)       -- returned normally
   | raised (steps : Nat)     -- an exception ended the whole parse
   | oof                      -- model ran out of fuel (depth)
-  deriving Repr, BEq
+  deriving Repr, BEq, DecidableEq
 
 /-- `parse(slice of node v, key_length)`.  Steps: 1 per `parse` call, 1 per `deserialize_hashmap_node` call,
 1 per unary-loop iteration.  Fuel = recursion depth. -/
@@ -326,8 +328,7 @@ def treeSize (g : DDag) : Nat → Nat → Nat
   | f+1, v =>
     match dkids g v with
     | [] => 1
-    | [a] => 1 + treeSize g f a
-    | a :: b :: _ => 1 + treeSize g f a + treeSize g f b
+    | a :: rest => 1 + treeSize g f a + (match rest with | [] => 0 | b :: _ => treeSize g f b)
 
 /-! ## 5. TL `deserialize` -/
 namespace Tl
@@ -362,7 +363,7 @@ inductive Res where
   | ok (adv : Nat) (steps : Nat)     -- returned `(result, adv)`
   | raised (steps : Nat) (guard : Bool)   -- guard = raised by the vector-length guard of the F16 repair
   | oof                               -- out of fuel
-  deriving Repr, BEq
+  deriving Repr, BEq, DecidableEq
 
 def natOfLE (bs : Bytes) : Nat := natOfBE bs.reverse
 
@@ -398,6 +399,20 @@ def reparseLoop (rec : Bytes → Res) (c : Bytes) (byteLen : Nat) : Nat → Nat 
       | .ok jj s => if jj == 0 then .ok 0 (steps + 1 + s) else reparseLoop rec c byteLen lf (j + jj) (steps + 1 + s)
     else .ok 0 steps
 
+/-- the auto-deserialised content `c` of a bytes field with declared length `byteLen`: first parse, then the
+`while j < byte_len` re-parse loop (loop fuel `len(c) + 1`); `iEnd` = offset after the field -/
+def bytesContent (rec : Bytes → Res) (c : Bytes) (byteLen iEnd : Nat) : Res :=
+  match rec c with
+  | .oof => .oof
+  | .raised s g => .raised s g
+  | .ok j s =>
+    if j < byteLen then
+      match reparseLoop rec c byteLen (c.length + 1) j s with
+      | .oof => .oof
+      | .raised s' g => .raised s' g
+      | .ok _ s' => .ok iEnd s'
+    else .ok iEnd s
+
 /-- one field at offset `i`; `rec b m` = recursive `deserialize` (m = none boxed / some s bare) -/
 def fieldStep (rec : Bytes → Option Nat → Res) (data : Bytes) (i : Nat) (ty : Ty) : Res :=
   match ty with
@@ -407,21 +422,10 @@ def fieldStep (rec : Bytes → Option Nat → Res) (data : Bytes) (i : Nat) (ty 
     let byteLen := if long then natOfLE (sl data (i + 1) (i + 4)) else natOfLE (sl data i (i + 1))
     let attach := if long then 4 else 1
     let i1 := i + attach
-    let fin := fun (steps : Nat) =>
-      let i2 := i1 + byteLen
-      Res.ok (if (byteLen + attach) % 4 != 0 then i2 + (4 - (byteLen + attach) % 4) else i2) steps
-    if !auto then fin 0 else
-    let c := sl data i1 (i1 + byteLen)
-    match rec c none with
-    | .oof => .oof
-    | .raised s g => .raised s g
-    | .ok j s =>
-      if j < byteLen then
-        match reparseLoop (fun b => rec b none) c byteLen (c.length + 1) j s with
-        | .oof => .oof
-        | .raised s' g => .raised s' g
-        | .ok _ s' => fin s'
-      else fin s
+    let i2 := i1 + byteLen
+    let iEnd := if (byteLen + attach) % 4 != 0 then i2 + (4 - (byteLen + attach) % 4) else i2
+    if !auto then .ok iEnd 0 else
+    bytesContent (fun b => rec b none) (sl data i1 (i1 + byteLen)) byteLen iEnd
   | .vec elem =>
     let length := natOfLE (sl data i (i + 4))
     let i1 := i + 4
